@@ -210,9 +210,10 @@ func checkC11(t *testing.T, ms *MultiScenario, rec *Recorder) []Diff {
 	for i, err := range o.Errs {
 		if err != nil {
 			rec.Case(scenarioKey(ms), false, nil, "other:run-error")
-			return []Diff{{"C09", "run-error", fmt.Sprintf("run %d (%s) failed: %v", i, ms.Runs[i].Variant, err)}}
+			return append(worldProblems(o.World, "C11"), Diff{"C09", "run-error", fmt.Sprintf("run %d (%s) failed: %v", i, ms.Runs[i].Variant, err)})
 		}
 	}
+	ds = append(ds, worldProblems(o.World, "C11")...)
 	w := o.World
 	// candidates per run
 	cands := make([][]int, len(ms.Runs))
@@ -389,7 +390,7 @@ func TestC11Request(t *testing.T) {
 		o := RunRequest(t, rq)
 		if o.Panic != "" || o.Deadlock != "" || o.Err != nil || o.Res == nil {
 			rec.Case(scenarioKey(rq), false, nil, "other:failed")
-			return []Diff{{"C09", "run-error", fmt.Sprintf("%v %s %s", o.Err, o.Panic, o.Deadlock)}}
+			return append(worldProblems(o.World, "C11"), Diff{"C09", "run-error", fmt.Sprintf("%v %s %s", o.Err, o.Panic, o.Deadlock)})
 		}
 		p := rq.P
 		w := o.World
@@ -411,7 +412,7 @@ func TestC11Request(t *testing.T) {
 				}
 			}
 		}
-		var ds []Diff
+		ds := worldProblems(o.World, "C11")
 		if bad := matchRunsToFlows(cands); bad >= 0 {
 			ds = append(ds, Diff{"C11", "not-isolated", fmt.Sprintf("run %d of the request reported %s which equals no flow's own scripted result", bad, describeRun(&o.Res.Traceroute.Runs[bad]))})
 		}
